@@ -1,8 +1,33 @@
 """Shared Hypothesis strategies.  Every random choice of the harness lives in a
-strategy so that shrinking and seeded replay work."""
+strategy so that shrinking and seeded replay work.
+
+Measured on Hypothesis 6.168: in the generate phase about a third of the examples are mutations of
+earlier ones, independent draws of the same shape are made EQUAL in ~45 % of the cases (span
+duplication) and ``st.binary`` is all-zero in 20-30 % of the cases.  Material that is meant to be
+uniform is therefore derived by hashing one drawn 64-bit salt together with a per-call-site label:
+two call sites never collapse to the same value and the value space is spread evenly, while the case
+record (which stores the derived value) keeps replay independent of the generator."""
+import hashlib
+import itertools
+
 from hypothesis import strategies as st
 
 from vf.ref.ec import N, P
+
+_site = itertools.count(1)
+
+
+def _salts():
+    return st.integers(0, 2**64 - 1)
+
+
+def _expand(salt, label, nbytes):
+    out = b""
+    ctr = 0
+    while len(out) < nbytes:
+        out += hashlib.sha256(b"vf:%d:%d:%d" % (salt, label, ctr)).digest()
+        ctr += 1
+    return out[:nbytes]
 
 
 def edges_or(edges, base, p_edge=None):
@@ -11,13 +36,25 @@ def edges_or(edges, base, p_edge=None):
 
 
 def uniform_int(lo, hi):
-    """An (almost) uniform integer in [lo, hi] built from random bytes, to avoid
-    Hypothesis' bias toward small magnitudes on 256-bit ranges."""
+    """An (almost) uniform integer in [lo, hi], independent of every other call site."""
     span = hi - lo + 1
     nbytes = (span.bit_length() + 7) // 8 + 8
-    return st.binary(min_size=nbytes, max_size=nbytes).map(
-        lambda b: lo + int.from_bytes(b, "big") % span
-    )
+    label = next(_site)
+    return _salts().map(lambda s: lo + int.from_bytes(_expand(s, label, nbytes), "big") % span)
+
+
+def rand_bytes(n):
+    """n uniformly distributed bytes, independent of every other call site."""
+    label = next(_site)
+    return _salts().map(lambda s: _expand(s, label, n))
+
+
+def choice(seq):
+    """A uniformly distributed element of seq (st.sampled_from is visibly skewed by the engine's
+    example mutation; class coverage of mutation catalogues should not depend on that)."""
+    seq = list(seq)
+    label = next(_site)
+    return _salts().map(lambda s: seq[int.from_bytes(_expand(s, label, 8), "big") % len(seq)])
 
 
 SECRET_EDGES = [
@@ -33,6 +70,7 @@ SECRET_EDGES = [e for e in SECRET_EDGES if 1 <= e < N]
 def secrets():
     return st.one_of(
         st.sampled_from(SECRET_EDGES),
+        uniform_int(1, N - 1),
         uniform_int(1, N - 1),
         uniform_int(1, N - 1),
         st.integers(1, 2**32),
@@ -52,6 +90,7 @@ def digests():
         st.sampled_from(DIGEST_EDGES),
         uniform_int(0, 2**256 - 1),
         uniform_int(0, 2**256 - 1),
+        uniform_int(0, 2**256 - 1),
         uniform_int(N, 2**256 - 1),
         st.integers(0, 2**32),
     )
@@ -60,7 +99,9 @@ def digests():
 def b32():
     return st.one_of(
         st.sampled_from([bytes(32), b"\xff" * 32, b"\x00" * 31 + b"\x01", b"\x80" + bytes(31)]),
-        st.binary(min_size=32, max_size=32),
+        rand_bytes(32),
+        rand_bytes(32),
+        rand_bytes(32),
         st.binary(min_size=32, max_size=32),
     )
 
